@@ -414,7 +414,7 @@ def run_witness(meta, unit):
         txt = open(ct).read().replace('path = "/repo"', 'path = "%s"' % repo)
         open(ct, "w").write(txt)
         shutil.copy(os.path.join(repo, "Cargo.lock"), os.path.join(wd, "w", "Cargo.lock"))
-        env = dict(os.environ, CARGO_TARGET_DIR=os.environ.get("VERIF_WITNESS_TARGET", "/tmp/vf_witness_target"), CARGO_NET_OFFLINE="true")
+        env = dict(os.environ, CARGO_TARGET_DIR=os.environ.get("VERIF_WITNESS_TARGET", "/tmp/vf_witness_target"), CARGO_NET_OFFLINE="true", VERIF_TIER=os.environ.get("VERIF_TIER", "quick"))
         # the target directory is only a build cache shared by concurrent checks (possibly of different trees): build
         # and take a private copy of the binary under a lock, so that the binary run is the one built from VERIF_REPO
         import fcntl
@@ -426,9 +426,15 @@ def run_witness(meta, unit):
                 return [], None, "witness build failed:\n" + b.stderr[-1500:]
             exe = os.path.join(wd, wbin)
             shutil.copy2(os.path.join(env["CARGO_TARGET_DIR"], "release", wbin), exe)
-        r = subprocess.run([exe], capture_output=True, text=True, timeout=900)
+        note = "ok"
+        try:
+            wt_timeout = 3000 if env["VERIF_TIER"] == "thorough" else 900
+            out = subprocess.run([exe], capture_output=True, text=True, timeout=wt_timeout, env=env).stdout
+        except subprocess.TimeoutExpired as te:  # keep what was found so far (a broken tree can make the search slow)
+            out = te.stdout.decode("utf-8", "replace") if isinstance(te.stdout, bytes) else (te.stdout or "")
+            note = "witness search stopped after %d s (partial output used)" % wt_timeout
         wit, summ = [], None
-        for line in r.stdout.split("\n"):
+        for line in out.split("\n"):
             line = line.strip()
             if line.startswith("{"):
                 try:
@@ -439,7 +445,7 @@ def run_witness(meta, unit):
                     wit.append(j)
                 elif j.get("summary"):
                     summ = j
-        return wit, summ, "ok"
+        return wit, summ, note
     except Exception as e:  # noqa
         return [], None, "witness search error: %s" % e
     finally:
@@ -485,6 +491,7 @@ def main():
     args = ap.parse_args()
     unit = args.unit
     tier = args.tier if args.tier in ("quick", "thorough") else "quick"
+    os.environ["VERIF_TIER"] = tier  # the bounded enumerators widen their bounds in the thorough tier
     seed = int(os.environ.get("VERIF_SEED", "0") or 0)
     t_start = time.time()
     os.makedirs(BUILD, exist_ok=True)
